@@ -12,7 +12,7 @@ CONSTANTS
   Sched = TRUE
   Patient = @PATIENT@
   ChunkCounts <- MCChunkCounts
-SPECIFICATION FairSpec
+SPECIFICATION @SPEC@
 INVARIANTS Core
 PROPERTIES Liveness Delivery
 CHECK_DEADLOCK FALSE
